@@ -380,9 +380,8 @@ func emitParseOracle(w *tx.W, cells map[string]bool) {
 }
 
 // a long document (more rows than the 1000-row resize threshold and than some row count hints)
-func genBigCsvDoc(r *tx.Rng) csvDoc {
+func genBigCsvDoc(r *tx.Rng, nrows int) csvDoc {
 	d := csvDoc{delim: ','}
-	nrows := r.PickInt([]int{999, 1000, 1001, 2100, 2600})
 	ncols := 2 + r.Intn(2)
 	hdr := []string{"a", "b", "c"}[:ncols]
 	d.cells = append(d.cells, hdr)
@@ -415,9 +414,15 @@ func genBigCsvDoc(r *tx.Rng) csvDoc {
 func csvReadSection(r *tx.Rng, w *tx.W, size int, opt map[string]string) {
 	dupHdr := r.P(1, 6)
 	d := genCsvDocH(r, size, !r.P(1, 4), dupHdr)
-	big := opt["faults"] == "" && r.P(1, 60)
+	big := opt["faults"] == "" && r.P(1, 30)
+	bigHint := 0
 	if big {
-		d = genBigCsvDoc(r)
+		nrows := r.PickInt([]int{999, 1000, 1001, 2100, 2600})
+		bigHint = r.PickInt([]int{2001, 2500, 3000, 1500})
+		if bigHint > 2000 && r.Bool() {
+			nrows = bigHint + 1 + r.Intn(200) // the hint is an under-estimate: the pre-allocated storage is outgrown
+		}
+		d = genBigCsvDoc(r, nrows)
 	}
 	// an enum column derived from the data with a cardinality at the limit (254..257 distinct values)
 	enumCard := 0
@@ -448,7 +453,7 @@ func csvReadSection(r *tx.Rng, w *tx.W, size int, opt map[string]string) {
 	}
 	hint := r.PickInt([]int{0, 0, 10, 3000})
 	if big {
-		hint = r.PickInt([]int{2001, 2500, 3000, 1500})
+		hint = bigHint
 	}
 	var headers []string
 	if r.P(1, 4) && ncols > 0 && !big {
